@@ -1,3 +1,4 @@
+import SyslModel.Mixin.Model
 /-
 C02 — `Compile`: what a specification text declares, as the module the compiler must build.
 
@@ -451,29 +452,17 @@ def envOf (f : File) : Env := ⟨f.apps.map fun a => (a.parts, a.types.map (·.n
 def ownTypes (e : Env) (a : App) : List (Key × Node) :=
   a.types.map fun t => (key "types" t.name, .msg (typeDeclFields e a.parts t))
 
-/-- the walk of `mixIn` (parse.go): depth-first through the mixin lists in the order they are written,
-    each application at most once (`seen`), collecting what each visited application declares itself.
-    `d` bounds the depth of the descent; an application is entered only when it is not yet in `seen`,
-    so the number of applications is enough. -/
-def mixWalk (f : File) : Nat → List (List String) →
-    (List (List String) × List (List String × TypeDecl)) → (List (List String) × List (List String × TypeDecl))
-  | _, [], st => st
-  | 0, _ :: _, st => st
-  | d+1, m :: rest, (seen, acc) =>
-    if seen.contains m then mixWalk f (d+1) rest (seen, acc) else
-    match f.apps.find? (fun b => b.parts == m) with
-    | none => mixWalk f (d+1) rest (m :: seen, acc)
-    | some b =>
-      let st1 := mixWalk f d b.mixins (m :: seen, acc ++ b.types.map (fun t => (b.parts, t)))
-      mixWalk f (d+1) rest st1
-termination_by d todo _ => (d, todo.length)
+/-- the mixin graph of a specification as `Mixin.walk` reads it: an application's mixin list and what it
+    declares itself (each type with the application that declares it) -/
+def mixFind (f : File) (m : List String) : Option (List (List String) × List (List String × TypeDecl)) :=
+  (f.apps.find? (fun b => b.parts == m)).map fun b => (b.mixins, b.types.map fun t => (b.parts, t))
 
-/-- types an application receives from the applications it mixes in, directly or through them: those
-    it does not declare itself, the first one met on the walk winning, each as compiled in the
-    application that declares it -/
+/-- types an application receives from the applications it mixes in, directly or through them
+    (`Mixin.mixed`: depth first, each application once): those it does not declare itself, the first one
+    met on the walk winning, each as compiled in the application that declares it -/
 def mixedTypes (e : Env) (f : File) (a : App) : List (Key × Node) :=
   let own := a.types.map (·.name)
-  let met := (mixWalk f (f.apps.length + 1) a.mixins ([a.parts], [])).2
+  let met := Mixin.mixed (mixFind f) f.apps.length a.parts
   (met.foldl (fun (acc : List String × List (Key × Node)) (bt : List String × TypeDecl) =>
     if acc.1.contains bt.2.name then acc
     else (acc.1 ++ [bt.2.name], acc.2 ++ [(key "types" bt.2.name, .msg (typeDeclFields e bt.1 bt.2))]))
